@@ -480,10 +480,9 @@ impl PartialEq for JsStr<'_> {
 impl PartialEq<str> for JsStr<'_> {
     #[inline]
     fn eq(&self, other: &str) -> bool {
-        match self.variant() {
-            JsStrVariant::Latin1(v) => v == other.as_bytes(),
-            JsStrVariant::Utf16(v) => other.encode_utf16().zip(v).all(|(a, b)| a == *b),
-        }
+        // Compare the code units of both strings: a Latin-1 buffer is not UTF-8 (its bytes above
+        // 0x7F are two-byte sequences in a `str`), and `zip` alone would ignore a length mismatch.
+        self.iter().eq(other.encode_utf16())
     }
 }
 
